@@ -70,8 +70,22 @@ def run_cvc5(path, timeout_s):
     return _verdict(out), out, dt
 
 
+def _race(cmds, timeout):
+    """run solver commands concurrently; return [(tag, verdict, seconds)] as they finish and stop
+    at the first definitive answer (sat/unsat).  `both`-mode callers pass wait_all=True."""
+    procs = []
+    t0 = time.time()
+    for tag, cmd in cmds:
+        procs.append((tag, subprocess.Popen(cmd, stdout=subprocess.PIPE, stderr=subprocess.DEVNULL,
+                                            text=True)))
+    return procs, t0
+
+
 def solve_text(text, want_model, t_z3=10, t_cvc5=20, both=False, workdir=None):
-    """-> dict(verdict, backend, time, model_text, tried=[(backend, verdict, time)])"""
+    """-> dict(verdict, backend, time, model_text, tried=[(backend, verdict, time)])
+
+    z3-new and cvc5 race on the same SMT-LIB text; the first sat/unsat wins (both are run to
+    completion when both=True, and a disagreement is reported as such)."""
     own = workdir is None
     d = workdir or tempfile.mkdtemp(prefix='pyvc-')
     tried = []
@@ -81,21 +95,43 @@ def solve_text(text, want_model, t_z3=10, t_cvc5=20, both=False, workdir=None):
             f.write(text)
             f.write('\n')
         mpath = path[:-5] + '_m.smt2'
-        v, out, dt = run_z3(path, t_z3)
-        tried.append(('z3', v, dt))
-        final, backend = v, 'z3'
-        cv = None
-        if (v not in ('sat', 'unsat') or both) and not any(u in text for u in CVC5_UNSUPPORTED):
-            cv, cout, cdt = run_cvc5(path, t_cvc5)
-            tried.append(('cvc5', cv, cdt))
-            if v not in ('sat', 'unsat') and cv in ('sat', 'unsat'):
-                final, backend = cv, 'cvc5'
-            elif both and cv in ('sat', 'unsat') and v in ('sat', 'unsat') and cv != v:
-                return {'verdict': 'disagree', 'backend': 'z3/cvc5', 'tried': tried,
-                        'time': sum(t for _, _, t in tried), 'model_text': None}
-        if final not in ('sat', 'unsat'):
+        cmds = [('z3', [Z3NEW, '-T:%d' % t_z3, path])]
+        if not any(u in text for u in CVC5_UNSUPPORTED):
+            cmds.append(('cvc5', [CVC5, '--strings-exp', '--tlimit=%d' % (t_cvc5 * 1000), path]))
+        procs, t0 = _race(cmds, max(t_z3, t_cvc5))
+        results = {}
+        deadline = t0 + max(t_z3, t_cvc5) + 5
+        pending = dict(procs)
+        final, backend = 'unknown', 'z3'
+        while pending and time.time() < deadline:
+            for tag, p in list(pending.items()):
+                if p.poll() is not None:
+                    out = p.stdout.read()
+                    v = _verdict(out)
+                    results[tag] = v
+                    tried.append((tag, v, round(time.time() - t0, 3)))
+                    del pending[tag]
+                    if v in ('sat', 'unsat') and final == 'unknown':
+                        final, backend = v, tag
+            if final != 'unknown' and not both:
+                break
+            if pending:
+                time.sleep(0.005)
+        for tag, p in pending.items():
+            try:
+                p.kill()
+                p.wait(timeout=5)
+            except Exception:
+                pass
+            if final == 'unknown' or both:
+                tried.append((tag, 'timeout', round(time.time() - t0, 3)))
+        if both and results.get('z3') in ('sat', 'unsat') and results.get('cvc5') in ('sat', 'unsat') \
+                and results['z3'] != results['cvc5']:
+            return {'verdict': 'disagree', 'backend': 'z3/cvc5', 'tried': tried,
+                    'time': time.time() - t0, 'model_text': None}
+        if final == 'unknown':
             v3, out3, dt3 = run_z3(path, t_z3, binary=Z3OLD)
-            tried.append(('z3-4.8', v3, dt3))
+            tried.append(('z3-4.8', v3, round(dt3, 3)))
             if v3 in ('sat', 'unsat'):
                 final, backend = v3, 'z3-4.8'
         model_text = None
@@ -106,8 +142,8 @@ def solve_text(text, want_model, t_z3=10, t_cvc5=20, both=False, workdir=None):
             mv, mout, mdt = run_z3(mpath, t_z3 * 2)
             if mv == 'sat':
                 model_text = mout.split('sat', 1)[1]
-        return {'verdict': final if final in ('sat', 'unsat') else 'unknown', 'backend': backend,
-                'tried': tried, 'time': sum(t for _, _, t in tried), 'model_text': model_text}
+        return {'verdict': final, 'backend': backend, 'tried': tried,
+                'time': time.time() - t0, 'model_text': model_text}
     finally:
         if own:
             shutil.rmtree(d, ignore_errors=True)
